@@ -158,6 +158,13 @@ def long_input(rng, target_len, delim=None):
             out += b"\\" + rng.choice([b" ", b"'", b'"', b"\\", b"a", b"\n"])
         else:
             out += rng.choice(WORDS)
+    if rng.random() < 0.12:
+        # one very long field (around and beyond the 128 KiB the system accepts for one argument): the reader's business is only
+        # where it ends - at the next separator, nowhere else
+        sep = b" " if delim is None else bytes([delim])
+        big = bytes([rng.choice(b"wxyz")]) * rng.choice([131070, 131071, 131072, 131073, 140000, 262145])
+        at = rng.choice([0, len(out)])
+        out[at:at] = sep + big + sep
     if delim is None and rng.random() < 0.5:
         out += rng.choice([b"\n", b" ", b" \n"])
     return bytes(out)
@@ -189,6 +196,12 @@ def chunkings(rng, data):
         ch2.append(c)
         ch2.append(None)
     yield "random+EINTR", ch2 + ch[50:]
+    # several interrupted reads in a row - before the first byte, between chunks and before end of input
+    ch3 = [None, None]
+    for c in ch[:30]:
+        ch3.append(c)
+        ch3 += [None] * rng.choice([0, 1, 2, 3])
+    yield "random+EINTRx3", ch3 + ch[30:] + [None, None, None]
 
 
 def random_worker(job):
@@ -215,6 +228,8 @@ def random_worker(job):
             else:
                 judge_delim(st, data, mode, raw[cid][0], raw[cid][1] if len(raw[cid]) > 1 else "", "hook/long", rp)
             st.inc("long_inputs")
+            if len(data) > 131000:
+                st.inc("long_inputs_with_a_field_of_128KiB_or_more")
     for cid, (mode, data, name, i) in meta.items():
         if name == "whole":
             continue
@@ -276,6 +291,19 @@ def binary_worker(job):
             results.append((name, r.rc, flat))
             if r.rc in (101, 134, -6, -11) or r.timed_out:
                 st.violate("panic-or-hang", None, {"input": data, "rc": r.rc, "stderr": r.err[-200:]}, {"input": hx(data), "mode": mode})
+                continue
+            # a field of 128 KiB or more cannot be passed: the arguments before it are run, then xargs reports it (status 1); it is
+            # never cut into pieces that fit
+            exp_all = ([t for t, _ in ref.tokens] if (mode < 0 and not ref.error) else [t for t, _ in xref.split_delim(data, mode)] if mode >= 0 else [])
+            big_at = next((j for j, t_ in enumerate(exp_all) if len(t_) + 1 > 131072), None)
+            if big_at is not None and (mode >= 0 or ref.in_domain):
+                st.inc("evaluations")
+                st.inc("binary_runs_with_a_field_too_long_to_pass")
+                if flat != exp_all[:big_at] or r.rc != 1 or not r.err.strip():
+                    st.violate("delimited-tokens-differ" if mode >= 0 else "tokens-differ", None,
+                               {"input": data[:200], "delim": mode, "problem": "a field of %d bytes cannot be passed: expected the %d arguments before it, "
+                                "exit status 1 and a diagnostic" % (len(exp_all[big_at]), big_at), "observed_lengths": [len(a) for a in flat][:12],
+                                "rc": r.rc, "stderr": r.err[-160:], "source": "binary/" + name}, {"input": hx(data), "mode": mode})
                 continue
             if mode < 0:
                 if ref.error:
